@@ -118,9 +118,10 @@ theorem get_map_self (db : Db) (i : Int) (old new : List (Val × Val))
     untouched -/
 theorem update_exact (db : Db) (i : Int) (old kvs : List (Val × Val))
     (hg : db.get i = some old) (hn : (kvKeys kvs).Nodup) :
-    ∃ db' new, db.insertElement (some i) kvs = .ok (db', i) ∧ db'.next = db.next ∧
-      (∀ j, j ≠ i → db'.get j = db.get j) ∧ db'.get i = some new ∧
-      ∀ key, lookupKey new key =
+    ∃ db', db.insertElement (some i) kvs = .ok (db', i) ∧ db'.next = db.next ∧
+      (∀ j, j ≠ i → db'.get j = db.get j) ∧
+      db'.get i = some (kvs.foldl insertOrReplace old) ∧
+      ∀ key, lookupKey (kvs.foldl insertOrReplace old) key =
         (match lookupKey kvs key with
          | some d => some d
          | none => lookupKey old key) := by
@@ -132,7 +133,7 @@ theorem update_exact (db : Db) (i : Int) (old kvs : List (Val × Val))
   have hi0 : i ≠ 0 := by omega
   refine ⟨{ db with elems := db.elems.map fun e =>
       if e.1 == i.toNat then (e.1, kvs.foldl insertOrReplace old) else e },
-    kvs.foldl insertOrReplace old, ?_, rfl, ?_, ?_, ?_⟩
+    ?_, rfl, ?_, ?_, ?_⟩
   · unfold Db.insertElement
     split
     · rename_i h; cases h
